@@ -2,6 +2,9 @@ import CuqiVerif.Model.C03_glue
 import Mathlib.Tactic.FieldSimp
 import Mathlib.Algebra.Field.Rat
 import Mathlib.Tactic.NormNum.Basic
+import Mathlib.Data.Fintype.OfMap
+import Mathlib.Data.Fintype.Basic
+import Mathlib.Data.Fintype.Prod
 
 /-!
 # C03 — the point conversions of `Model.gradient` (`Model._2par`, `Model._2fun`)
@@ -51,5 +54,60 @@ theorem scaledGeo_right_inverse (c : Rat) (hc : c ≠ 0) (f : List Rat) :
 example : modelGradient (scaledGeo 2) (fun (d : Rat) f => f.map (d * ·)) none 3 (.cuqiFunSame [2, 4])
     = modelGradient (scaledGeo 2) (fun (d : Rat) f => f.map (d * ·)) none 3 (.ndarray [1, 2]) :=
   modelGradient_rep_invariant _ (scaledGeo_right_inverse 2 (by norm_num)) _ _ _ _ _ (by decide +kernel)
+
+/-- the same consistency under the weaker hypothesis that only the function values actually supplied lie in the
+    range of `par2fun` (expansion geometries: `par2fun ∘ fun2par` is a projection, the identity only on the range) -/
+theorem wrtFun_eq_par2fun_wrtPar_of_range {P F : Type} (g : Geo P F) (r : PointRep P F)
+    (hr : ∀ f, (r = .cuqiFunSame f ∨ r = .funvals f) → g.par2fun (g.fun2par f) = f) :
+    wrtFun g r = g.par2fun (wrtPar g r) := by
+  cases r with
+  | ndarray p => rfl
+  | cuqiParSame p => rfl
+  | cuqiParOther p => rfl
+  | cuqiFunSame f => simp [wrtFun, wrtPar, hr f (Or.inl rfl)]
+  | funvals f => simp [wrtFun, wrtPar, hr f (Or.inr rfl)]
+
+example : wrtFun (linGeo [[1, 0], [0, 2], [1, 1]] [1, 1, 1] [[1, 0, 0], [0, 1/2, 0]]) (.funvals [2, 5, 4])
+    = (linGeo [[1, 0], [0, 2], [1, 1]] [1, 1, 1] [[1, 0, 0], [0, 1/2, 0]]).par2fun
+        (wrtPar (linGeo [[1, 0], [0, 2], [1, 1]] [1, 1, 1] [[1, 0, 0], [0, 1/2, 0]]) (.funvals [2, 5, 4])) :=
+  wrtFun_eq_par2fun_wrtPar_of_range _ _ (by
+    intro f hf
+    rcases hf with hf | hf
+    · cases hf
+    · cases hf; decide +kernel)
+
+instance : Fintype Fun2parKind := Fintype.ofList [.ok, .notImplemented, .valueError] (by intro x; cases x <;> simp)
+
+/-- **`Model.gradient` returns a vector exactly when every guard passes** (all 768 rows): a gradient function
+    exists, no `Samples` argument, the range geometry is an identity geometry, the domain geometry is an identity
+    geometry or carries `gradient`, and — if the point holds function values — `fun2par` is implemented. -/
+theorem gradientOutcome_value_iff :
+    ∀ (nf : Bool) (k : Fun2parKind) (hg sm rid dg did dc : Bool),
+      (∃ w, gradientOutcome nf k hg sm rid dg did dc = .value w) ↔
+        ((nf = true → k = .ok) ∧ hg = true ∧ sm = false ∧ rid = true ∧ (dg = true ∨ did = true)) := by
+  intro nf k hg sm rid dg did dc
+  cases nf <;> cases k <;> cases hg <;> cases sm <;> cases rid <;> cases dg <;> cases did <;> cases dc <;>
+    simp [gradientOutcome]
+
+/-- the output is wrapped as a `CUQIarray` exactly when the direction is one; never otherwise -/
+theorem gradientOutcome_wrapping :
+    ∀ (nf : Bool) (k : Fun2parKind) (hg sm rid dg did dc w : Bool),
+      gradientOutcome nf k hg sm rid dg did dc = .value w → w = dc := by
+  intro nf k hg sm rid dg did dc w
+  cases nf <;> cases k <;> cases hg <;> cases sm <;> cases rid <;> cases dg <;> cases did <;> cases dc <;> cases w <;>
+    simp [gradientOutcome]
+
+/-- a `Samples` argument, a missing gradient function or a non-identity range are refused whatever else holds;
+    the exception class of a failing `fun2par` is preserved (error translation of the `try` around `_2par`) -/
+theorem gradientOutcome_refusals :
+    ∀ (nf : Bool) (k : Fun2parKind) (hg sm rid dg did dc : Bool),
+      ((sm = true ∨ hg = false ∨ rid = false) → ∀ w, gradientOutcome nf k hg sm rid dg did dc ≠ .value w) ∧
+      (nf = true → k = .valueError → gradientOutcome nf k hg sm rid dg did dc = .valueError) ∧
+      (nf = true → k = .notImplemented → gradientOutcome nf k hg sm rid dg did dc = .notImplemented) := by
+  intro nf k hg sm rid dg did dc
+  cases nf <;> cases k <;> cases hg <;> cases sm <;> cases rid <;> cases dg <;> cases did <;> cases dc <;>
+    simp [gradientOutcome]
+
+example : gradientOutcome true .ok true false true true false true = .value true := by decide
 
 end CuqiVerif.C03
